@@ -347,6 +347,19 @@ def check_single(tool, base, verdict):
                               "econftool show %s (content %r): printed %s, library delivers %s" % (name, content, sorted(got), sorted(want)))
         else:
             ok += 1
+    # a merged tree whose values are the library's own marker word: values like any other
+    os.makedirs(R + "/root/usr/etc", exist_ok=True)
+    os.makedirs(R + "/root/etc/mk.conf.d", exist_ok=True)
+    open(R + "/root/usr/etc/mk.conf", "w").write("a=_none_\n[S]\nb=_none_\n")
+    open(R + "/root/etc/mk.conf.d/x.conf", "w").write("c=1\n[S]\nd=_none_\n")
+    rc, text = run_tool(tool, R + "/root", ["show", "mk.conf"])
+    got = set().union(*[b[1] for b in parse_blocks(text)]) if text else set()
+    want = {("", "a", ("_none_",)), ("", "c", ("1",)), ("S", "b", ("_none_",)), ("S", "d", ("_none_",))}
+    if rc != 0 or got != want:
+        verdict.violation("C19:single:marker-values", {"kind": "single", "got": sorted(got), "want": sorted(want)},
+                          "econftool show on a two-file tree with the values `_none_`: exit %d, printed %s, the library delivers %s" % (rc, sorted(got), sorted(want)))
+    else:
+        ok += 1
     p = R + "/bad.conf"
     open(p, "w").write("a=1\n\n[x\n")
     rc, text = run_tool(tool, R + "/root", ["syntax", p])
